@@ -13,6 +13,7 @@ EXT, EXP = slevel.EXT, slevel.EXP
 REASONS = {
     51: "device-observation-sequence-differs-from-model", 52: "model-updates-a-device-the-implementation-did-not",
     53: "tick-sequence-of-a-scheduler-differs-from-model", 54: "master-tick-real-times-differ-from-model",
+    55: "simulation-time-abstraction-differs-from-master-model",
     61: "device-not-updated-exactly-once-in-initial-tick", 62: "later-tick-before-initial-tick-completed",
     81: "device-input-is-not-the-latest-upstream-value", 65: "callback-not-honoured", 66: "tick-time-invented",
     67: "device-updated-without-a-cause",
@@ -21,7 +22,7 @@ REASONS = {
     91: "disconnected-part-changes-observations",
     99: "simulation-stalled-or-raised",
 }
-CORR = {51, 52, 53, 54, 73}
+CORR = {51, 52, 53, 54, 55, 73}
 
 
 # ------------------------------------------------------------------ flattening (mirror of Oracle/SimOracle.v)
@@ -229,6 +230,7 @@ def main_S(pid, tier, seed, prop_codes, prop_mod, serving_files, what, emphasis)
     ck.coverage.update(enumerated_nestings=n_ex, disagreements=len(bad),
                        depths={str(d): sum(1 for c in cases if slevel.depth_of(c["cfg"]) == d) for d in range(1, 6)},
                        with_interrupts=sum(1 for c in cases if c["stim"]),
+                       simtime_abstraction_cases=sum(1 for c in cases if tuple(c["speed"]) == (1, 1) and not c["stim"]),
                        ticks_total=sum(len(r["ticklog"]) for r in runs))
     ck.sample(dict(case=describe(cases[-1]), ticklog=runs[-1]["ticklog"][:6]))
     report_codes(ck, pid, what, bad, cases, runs, prop_codes | {99})
